@@ -100,6 +100,11 @@ def parse_vc(path: str) -> UnitSpec:
             elif head == "rlimit":
                 u.rlimit = int(rest)
                 cur = None
+            elif head == "include":
+                inc = os.path.join(os.path.dirname(path), rest)
+                for k2, l2 in enumerate(open(inc).read().split("\n"), 1):
+                    u.prelude.append((k2, l2))
+                cur = None
             elif head == "prelude":
                 cur = u.prelude
             elif head == "postlude":
